@@ -27,6 +27,21 @@ def cumulative_trapezoid(y, dt):
     return out
 
 
+def velocity(acc, dt):
+    """Velocity of the record from its definition (C08): cumulative trapezoid of the acceleration, v[0] = 0.
+    Returns (v, err): err bounds the rounding error any floating-point evaluation of that running sum can carry
+    ((n+2) * eps * sum of |panel|); the velocity-based final values widen their allowance by its propagation."""
+    v = [0.0]
+    s = 0.0
+    tot = 0.0
+    for i in range(1, len(acc)):
+        p = 0.5 * dt * (acc[i] + acc[i - 1])
+        s += p
+        tot += abs(p)
+        v.append(s)
+    return v, (len(acc) + 2) * EPS * tot
+
+
 def arias_final(acc, dt):
     return math.pi / (2.0 * G) * trapezoid([a * a for a in acc], dt)
 
